@@ -9,7 +9,7 @@ RATES = [8000, 16000, 22050, 24000, 32000, 44100, 48000, 88200, 96000, 176400, 1
          1000, 255000, 12345, 65535, 655350, 123450, 123457, 0, 1, 1048575]            # kHz / Hz / tens-of-Hz / STREAMINFO codes
 DEPTHS = [1, 2, 4, 7, 8, 12, 16, 17, 20, 24, 31, 32]
 SIGNALS = ["noise", "small", "sine", "walk", "const", "zero", "extremes", "stereo", "wasted", "ramp", "impulse",
-           "panfirst", "panlast", "chanmix", "blockmix", "chanmix", "blockmix"]
+           "panfirst", "panlast", "chanmix", "blockmix", "chanmix", "blockmix", "fade", "fade64", "burst"]
 WINDOWS = ["rect", "hann", "tukey", "tukey1", "tukey0"]
 
 
@@ -63,6 +63,19 @@ def short_final_blocks(t, rnd):
                 jobs.append({"fe": rnd.choice(FES), "rate": 44100, "bps": rnd.choice([8, 16, 24, 32]), "channels": ch,
                              "opts": {"block_size": 64 if order <= 12 else 80, "max_lpc": order, "max_po": rnd.choice([0, 2, 6, 15]), "padding": -1, "seektable": "none"},
                              "pcm": {"signal": sig, "seed": rnd.randint(1, 99999), "frames": (64 if order <= 12 else 80) + tail}, "tag": "short-final"})
+    # blocks of exactly order * 2^p samples (the partition layout's boundary: a partition as long as the predictor order) with a
+    # residual magnitude that varies inside the block, which is what makes high partition orders attractive to the encoder
+    for order, lpc in ((1, -1), (2, -1), (3, -1), (4, -1), (1, 1), (2, 2), (4, 4), (6, 6), (8, 8)):
+        for p in (2, 3, 4):
+            n = order << p
+            for sig in ("fade", "fade64", "burst"):
+                if n >= 16:
+                    jobs.append({"fe": rnd.choice(FES), "rate": 44100, "bps": rnd.choice([8, 16, 24]), "channels": 1,
+                                 "opts": {"block_size": n, "max_lpc": lpc, "max_po": rnd.choice([6, 8, 15]), "padding": -1, "seektable": "none"},
+                                 "pcm": {"signal": sig, "seed": rnd.randint(1, 99999), "frames": 3 * n}, "tag": "order-shl-p"})
+                jobs.append({"fe": rnd.choice(FES), "rate": 44100, "bps": rnd.choice([8, 16, 24]), "channels": rnd.choice([1, 2]),
+                             "opts": {"block_size": 256, "max_lpc": lpc, "max_po": rnd.choice([6, 8, 15]), "padding": -1, "seektable": "none"},
+                             "pcm": {"signal": sig, "seed": rnd.randint(1, 99999), "frames": 256 + n}, "tag": "order-shl-p"})
     # whole files of 1..40 samples
     for n in range(1, 41 if t == "thorough" else 21):
         for order in (-1, 2, 4, 8):
@@ -113,4 +126,10 @@ def fix_declared(jobs, rnd):
             upf = ch * ((bps + 7) // 8) if fe.startswith("byte") else (ch if fe == "sample" else 1)
             if frames > 0:
                 j["total"] = frames * upf
+    # about a third of the runs hand their input over in several write calls cut at arbitrary unit positions (mid-sample for the
+    # byte front ends, mid-frame for the sample front end): what is encoded must not depend on it (C08), so C01 / C02 hold there too
+    for j in jobs:
+        if rnd.random() < 0.35:
+            # positions as fractions of the unit stream (the harness turns them into unit counts for whichever front end runs)
+            j["write_cuts"] = sorted(round(rnd.random(), 4) for _ in range(rnd.randint(1, 5)))
     return jobs
